@@ -72,7 +72,7 @@ def cargo(ws, args, timeout=3600, env_extra=None):
     if env_extra:
         env.update(env_extra)
     try:
-        p = subprocess.run(["cargo"] + args + ["--offline"], cwd=ws, env=env, stdout=subprocess.PIPE, stderr=subprocess.PIPE, text=True, timeout=timeout)
+        p = subprocess.run(["cargo"] + args + ["--offline"], cwd=ws, env=env, stdout=subprocess.PIPE, stderr=subprocess.PIPE, text=True, errors="replace", timeout=timeout)
     except subprocess.TimeoutExpired:
         machinery(f"cargo {' '.join(args)} exceeded {timeout}s")
     return p.returncode, p.stdout, p.stderr
@@ -111,7 +111,7 @@ def check_json(ws, extra_args=(), timeout=3600):
 def run_bin(ws, crate, args=(), timeout=3600):
     exe = os.path.join(TARGET, "debug", crate)
     try:
-        p = subprocess.run([exe, *args], cwd=ws, stdout=subprocess.PIPE, stderr=subprocess.PIPE, text=True, timeout=timeout, env=ENV)
+        p = subprocess.run([exe, *args], cwd=ws, stdout=subprocess.PIPE, stderr=subprocess.PIPE, text=True, errors="replace", timeout=timeout, env=ENV)
     except subprocess.TimeoutExpired:
         return None, "", "timeout"
     return p.returncode, p.stdout, p.stderr
